@@ -70,6 +70,8 @@ var poolFHIR = []Val{
 	fv("dateTime", "2020"), fv("dateTime", "2020-02"), fv("dateTime", "2020-02-29"), fv("dateTime", "2020-02-29T10:30:00Z"), fv("dateTime", "2020-02-29T16:00:00+05:30"), fv("dateTime", "2020-02-29T10:30:00.500Z"), fv("dateTime", "2020-02-29T10:30:00.123456Z"),
 	{K: "fhir.date", S: "2020", U: "+14:00"}, {K: "fhir.date", S: "2020-02-29", U: "-11:00"}, {K: "fhir.date", S: "2020-02", U: "+05:30"}, {K: "fhir.dateTime", S: "2020", U: "+14:00"}, {K: "fhir.dateTime", S: "2020-02-29", U: "-11:00"}, {K: "fhir.dateTime", S: "2021", U: "+14:00"},
 	fv("instant", "2020-02-29T10:30:00Z"), fv("instant", "2020-02-29T10:30:00.500+05:30"),
+	// microsecond precision with digits below the millisecond (finer than a System value keeps)
+	fv("instant", "2020-02-29T10:30:07.123456Z"), fv("instant", "2020-02-29T10:30:07.000001-03:30"), fv("instant", "2020-02-29T10:30:07.123000Z"), fv("time", "10:30:07.123456"), fv("dateTime", "2020-02-29T10:30:07.999999+14:00"),
 	fv("time", "10:30:00"), fv("time", "10:30:00.500"), fv("time", "23:59:59.999999"),
 	{K: "fhir.Quantity", S: "1", U: "mg"}, {K: "fhir.Quantity", S: "1.0", U: "mg"}, {K: "fhir.Quantity", S: "5", U: ""},
 }
